@@ -77,6 +77,9 @@ TABLE = {
     # every layout edit on every subroutine / function header variant (prefixes, argument lists, suffixes in both orders)
     "Perturb_c04u_quick": dict(BASE, MaxStmts=1, MaxDepth=1, MaxRich="= 1", MaxVar=30, UnitKinds="SubFun", ConKinds="Empty", SpecKinds="Empty", PKinds="KLayout1", MaxEdits=1,
                                NameChoices="Set0", EndForms="Set02", Contains="FALSE", DumpMod=1, SplitUnits="TRUE"),
+    # every statement variant joined by ';' to its neighbours (an IF construct among them: text in brackets behind the ';')
+    "Perturb_c04j_quick": dict(BASE, MaxStmts=3, MaxRich="= 1", MaxVar=1, UnitKinds="SubOnly", ConKinds="IfOnly", SpecKinds="Empty", SimpleV="SimpleAll", PKinds="KJoin",
+                               NameChoices="Set0", EndForms="Set1", Contains="FALSE", DumpMod=1),
     # C06: every catalogue variant (sweep: at most one non-default variant per program) with every single mutation of that statement
     "Perturb_c06_exec_quick": dict(BASE, MaxRich="= 1", MaxVar=30, UnitKinds="SubOnly", ConKinds="SweepCons", SpecKinds="Empty", SimpleV="SimpleAll", PKinds="KMut",
                                    NameChoices="Set1", EndForms="Set1", Contains="FALSE", RichOnly="TRUE", DumpMod=157),
